@@ -38,7 +38,7 @@ CHECKS = {
          'yields the RFC layout and decompress of it returns fields ++ payload; with compute fields under the premise that the compute '
          'stage regenerates the carried values (C09); through cm_compress/cm_decompress for FIRST and BEST with prefix-free ids; the '
          'parser tiling premise is discharged by C07 for all registry stacks. Tie: round trips executed on the implementation for all '
-         'parser configurations, every step compared with the extracted model (incl. the model parser).',
+         'parser configurations, every step compared with the extracted model (incl. the model parser). Byte level (c01_bytes_*): from the raw packet Buffer through the byte-level parsers, matcher, manager, compress and decompress with the compute stage (models written with the Buffer operations the code performs, proved to refine the bit level, and run raw-exact against the code) the packet Buffer comes back; compute premise discharged for IPv6/UDP and IPv4/UDP (c01_stack_*).',
          'proof by composition (layout, inversion, dispatch) + model/code correspondence', '7 C01'),
  'C02': ('Theorem c02_layout: whenever the declarative RFC 8724 section 7 layout is defined for (packet, rule, direction), compress returns '
          'exactly it (rule id, residues in rule order incl. 4/12/28-bit sizes of variable-length residues, payload); no-compression rules '
@@ -48,11 +48,11 @@ CHECKS = {
          'decompress_field rebuilds the value and consumes exactly the residue (all CDAs, fixed/variable lengths over the three size '
          'encodings, mappings with prefix-free indices of mixed width); lifted to all fields, to the whole packet with payload, with the '
          'compute stage running over the rebuilt list. Tie: SCHC packets built by the harness from the RFC layout (never by the '
-         'library\'s compressor), incl. empty / non-aligned payloads, vs extracted model vs independent reference decompressor.',
+         'library\'s compressor), incl. empty / non-aligned payloads, vs extracted model vs independent reference decompressor. Byte level: c03_decompress_bytes_compute / _exception: the byte-level decompressor with compute stage gives the same packet or the same exception for every rule; c03_decompress_sort covers rules whose compute entries list.sort reorders.',
          'proof by induction over the rule fields + model/code correspondence', '7 C03'),
  'C04': ('Theorem c04_match: for typed rules the generator of the matcher equals the list of rules satisfying the applicability predicate '
          'of the statement, in rule-set order (soundness, completeness, order in one equation); no-compression rules always apply. '
-         'Tie: near-miss mutants (one or two edits) x both directions x either padding side vs extracted model vs the predicate.',
+         'Tie: near-miss mutants (one or two edits) x both directions x either padding side vs extracted model vs the predicate. Byte level: c04_match_bytes (the matcher on Buffers yields the same rules in the same order).',
          'proof (matcher = filter of a declarative predicate) + model/code correspondence', '7 C04'),
  'C07': ('Theorems c07_*: for EVERY bit string, whenever a header parser accepts, its field values in order are exactly the first '
          '(header length) bits and the header length does not exceed the buffer; for all 7 registry configurations fields ++ payload = input. '
@@ -62,19 +62,19 @@ CHECKS = {
          'RfcChecksum.v): byte lengths, IPv4 header checksum and UDP checksum over IPv6/IPv4 pseudo-headers as one\'s complement arithmetic '
          'modulo 65535 (fold with end-around carry proved equal to it), CRC-32c table entries equal to the bit-serial definition (complete '
          'finite check lifted) and table-driven loop equal to the bit-serial register. Tie: compute functions called directly and through '
-         'decompress on packets with independently computed checksums incl. 0x0000/0xFFFF corner values vs extracted model.',
+         'decompress on packets with independently computed checksums incl. 0x0000/0xFFFF corner values vs extracted model. Byte level: c07_packet_bytes, c07_bytes_refine (byte-level parsers tile the packet Buffer and refine the bit-level ones). Byte level: c09_bytes_table (the functions as written on Buffers refine them, same dependency sets); order of execution = CPython list.sort modelled in PySort.v (c09_sort_*, c09_udp_after_sctp).',
          'proof (arithmetic mod 65535, GF(2) linearity of CRC) + model/code correspondence', '7 C09'),
  'C10': ('Theorems c10_*: FIRST = compress with the first applying rule (or the rule-match error); BEST = output of an applying rule, no '
          'applying rule shorter, ties to the earliest; BEST <= FIRST; a no-compression rule always applies. Tie: ContextManager.compress on '
-         'rule sets of 1..8 rules x FIRST/BEST x Up/Dw vs extracted model (model parser+matcher+compressor) vs reference selection.',
+         'rule sets of 1..8 rules x FIRST/BEST x Up/Dw vs extracted model (model parser+matcher+compressor) vs reference selection. Byte level: c10_manager_bytes (ContextManager.compress on Buffers has the outcome of the bit-level manager).',
          'proof (list minimum with strict comparison) + model/code correspondence', '7 C10'),
  'C11': ('Theorems c11_*: with prefix-free ids of any lengths the rule whose id leads the bit string is returned whatever follows; no id a '
          'prefix (incl. shorter strings) gives RuleIDMatchError; a returned rule is the first whose id is a prefix. Tie: every prefix code '
-         'of total length <= 5 (quick) / 6 (thorough) in every order x every string <= 7 bits, random codes to 16 bits.',
+         'of total length <= 5 (quick) / 6 (thorough) in every order x every string <= 7 bits, random codes to 16 bits. Byte level: c11_found_bytes, c11_manager_bytes, c11_compressed_bytes.',
          'proof (prefix comparability) + exhaustive small-scope correspondence', '7 C11'),
  'C14': ('Theorems c14_*: for EVERY bit string each header parser and each registry configuration of the model returns a descriptor or '
          'ParserError: never Diverge (loops run on fuel = bit length + 1; each CoAP option consumes >= 8 bits, each SCTP chunk / parameter '
-         '>= 32), never another exception. Tie: malformed stream on the implementation with a 5 s limit per case vs extracted model.',
+         '>= 32), never another exception. Tie: malformed stream on the implementation with a 5 s limit per case vs extracted model. Byte level: c14_stack_bytes (the byte-level parsers are total on canonical left-padded buffers).',
          'proof of totality with explicit fuel + model/code correspondence', '7 C14'),
  'C15': ('Theorems c15_*: no applying rule gives RuleDescriptorMatchError under FIRST and BEST, an unparsable packet gives the parser\'s error, '
          'no leading rule id gives RuleIDMatchError; the front end skips contexts signalling these errors in order, takes the first other '
@@ -82,12 +82,12 @@ CHECKS = {
          'vs extracted model.', 'proof (case analysis of the front-end loops) + model/code correspondence', '7 C15'),
  'C18': ('Theorems c18_*: the descriptors used for direction d are exactly those marked d or Bi in rule order, by the matcher, compress and '
          'decompress alike (same select function), and such a rule round-trips packets of direction d. Tie: rules with Up/Dw alternatives at '
-         'every position x both directions through the bare functions and the ContextManager vs extracted model.',
+         'every position x both directions through the bare functions and the ContextManager vs extracted model. Byte level: c15_nomatch_bytes, c15_noid_bytes, c15_front_compress_bytes, c15_front_decompress_bytes.',
          'proof (common selection function) + model/code correspondence', '7 C18'),
  'C20': ('Theorems c20_*: for rules well-formed for decompression (typed target values, compute fields with protocol lengths inside a '
          'supported stack shape, bounded static bits) and EVERY bit string shorter than 65000 bytes, decompress returns a buffer; through the '
          'manager: a buffer or RuleIDMatchError. The static bound is shown necessary by a witness. Tie: truncations, bit flips, size '
-         'escapes, random strings through ContextManager.decompress (5 s limit) vs extracted model.',
+         'escapes, random strings through ContextManager.decompress (5 s limit) vs extracted model. Byte level: c20_rule_total_bytes.',
          'proof of totality (per-function totality lemmas, shape invariant of the compute stage) + model/code correspondence', '7 C20'),
 
  'C12': ('Theorems c12_*: for canonical buffers, mappings with pairwise different values and indices, and objects built from them, '
@@ -108,7 +108,7 @@ CHECKS = {
          'value, un-parsing those fields returns exactly the syntactic field sequence (ids and values), hence parse-semantic then unparse '
          'equals parse-syntactic. Tie: option sequences over known/unknown numbers, every delta and length class incl. 12/13/268/269, repeats, '
          'with/without payload: semantic parse and unparse vs extracted model, unparse vs syntactic parse, plus the whole pipeline through '
-         'PacketParser / compress / decompress with un-parser.',
+         'PacketParser / compress / decompress with un-parser. Byte level: c19_bytes_parse, c19_bytes_unparse, c19_bytes_lossless (semantic parser and un-parser on Buffers refine the bit level; exact byte-level equality of unparse(semantic parse) with the syntactic parse).',
          'proof (unparse inverts the semantic view, induction over options) + model/code correspondence', '7 C19'),
 }
 ALL = ['C%02d' % i for i in range(1, 21)]
